@@ -4,8 +4,18 @@ import numpy as np
 from .. import gen
 
 
-def kauri_case(seed, prop, i, nmax=40):
+def kauri_case(seed, prop, i, nmax=40, big=0.02):
     rng = gen.rng_for(seed, prop, "kfit", i)
+    if big and gen.rng_for(seed, prop, "kfit-big", i).random() < big:
+        # a long fit: dozens of clusters, up to ~100 leaves, no structural limit binding early - whatever bookkeeping
+        # grows with the tree is exercised well past its first allocation
+        n, d = int(rng.integers(90, 161)), int(rng.integers(1, 4))
+        X = gen.make_data(rng, n, d, "blobs", centers=int(rng.integers(3, 12)))
+        p = {"random_state": gen.subseed(rng) % 100000, "max_clusters": int(rng.integers(34, max(36, int(0.6 * n)))),
+             "kernel": ["rbf", "linear", "laplacian"][int(rng.integers(0, 3))], "min_samples_leaf": 1, "min_samples_split": 2}
+        if rng.random() < 0.3:
+            p["min_samples_leaf"], p["min_samples_split"] = 2, int(rng.integers(4, 7))
+        return rng, X, None, p, {"n": n, "d": d, "data": "blobs-big", "log10_unit": 0}
     n = int(rng.integers(1, nmax + 1)) if rng.random() < 0.9 else int(rng.integers(1, 6))
     d = int(rng.integers(1, 6))
     nonneg = bool(rng.random() < 0.1)
